@@ -98,9 +98,9 @@ def gen_atom(rng):
         return {"k": "eqc", "v": v, "c": gen_const(rng, v)}
     if r < 0.38:
         return {"k": "eqv", "v": v, "w": gen_var(rng)}
-    if r < 0.6:
+    if r < 0.63:
         return {"k": "in", "v": v, "cs": [gen_const(rng, v) for _ in range(rng.choice([1, 1, 2, 3]))]}
-    if r < 0.82:
+    if r < 0.88:
         return {"k": "notin", "v": v, "cs": [gen_const(rng, v) for _ in range(rng.choice([1, 1, 2, 3]))]}
     return {"k": "re", "v": v, "p": rng.choice(PATTERNS)}
 
@@ -337,9 +337,12 @@ def real_info(ws, j):
     return JobInformation((ws / "jobs" / j["ty"] / j["id"]).resolve(), script_of(j["ty"]))
 
 
-def real_state(ws, j):
-    st = real_info(ws, j).state
-    return None if st is None else st.name
+def real_state(ws, j, obj=None):
+    try:
+        st = (obj or real_info(ws, j)).state
+        return None if st is None else st.name
+    except Exception as e:  # an outcome for the monitors, not a harness error
+        return "raised:" + type(e).__name__
 
 
 def real_filter(text):
@@ -568,7 +571,7 @@ def run_filter_case(ctx, c, q, lines, impls, root):
     infos, outs = [], []
     for j in jobs:
         obj = real_info(ws, j)
-        st = real_state(ws, j)
+        st = real_state(ws, j, obj)
         monitor_state(ctx, j, st, "filter-case")
         info = {"state": st, "name": j["ty"], "tags": j["tags"]}
         infos.append(info)
@@ -615,9 +618,12 @@ def do_clean(ctx, case, ws, layout, opts):
     for j in layout["jobs"]:
         key = f"{j['ty']}/{j['id']}"
         obj = real_info(ws, j)
-        states[key] = real_state(ws, j)
+        states[key] = real_state(ws, j, obj)
         _INFO_CACHE[(str(ws), j["ty"], j["id"])] = obj
-        obj.tags, obj.state  # read now: the directory may be gone afterwards
+        try:
+            obj.tags  # read now (cached by the object): the directory may be gone afterwards
+        except Exception:
+            pass
         monitor_state(ctx, j, states[key], "clean-case")
     fobj, ferr = (real_filter(opts["text"]) if opts["filter"] is not None else (None, None))
     before = snapshot(ws)
@@ -824,7 +830,7 @@ def correspond(ctx):
     ctx.extra_cov["source_variant_observed"] = {k: ("pinned-defect" if v else "repaired") for k, v in q.items()}
     ctx.notes.append(f"model switches observed on the source: {q}")
     ctx._q = q
-    n = ctx.scale(2200, 40000)
+    n = ctx.scale(2200, 24000)
     rng = ctx.rng
     cases = gen_cases(ctx, n, rng)
     for k in range(0, len(cases), 4000):
